@@ -8,7 +8,7 @@ from props import c09, c10, nncommon as nn
 RULE = ("cases = random conjunctive provenance hypergraphs (2-5 units, 1-5 rows: shared units, rows needing several "
         "units, units owning several rows, units owning no row; also one-unit-per-row and map/fork shapes routed "
         "through the ADD path by K>1), K in 1..3 incl. K larger than the number of rows, 1-3 classes, 1-2 validation "
-        "points, DISTINCT distances per point (a quarter of the cases at magnitude 2^27 with unit gaps: distinct in double precision only), generated utility tables and null vectors: "
+        "points; HISTORIES on one Provenance object held by one fitted importance object (score, swap two rows in place, score again); DISTINCT distances per point (a quarter of the cases at magnitude 2^27 with unit gaps: distinct in double precision only), generated utility tables and null vectors: "
         "ShapleyImportance('neighbor', nn_k=K) vs the loop model over the counting specification and vs the Shapley "
         "value by definition of the KNN game, inside Coq; plus, for the real accuracy utility, equality with "
         "'bruteforce' over KNeighborsClassifier(K); the diagram and row locations compile() returns for the instance are "
